@@ -28,6 +28,8 @@ def construct(m, meta):
         def rnd_ns():
             C=rng.choice([c for c in cls if c.Args] or [None])
             if C is None: return None
+            if rng.random() < 0.3:
+                return RenderArgs(C)[C]        # the shared default namespace object itself, not a fresh equal one
             return C.Args(rng.randint(0,1), rng.randint(0,1))
         for step in range(60):
             C=rng.choice(cls)
